@@ -273,19 +273,19 @@ func (i *Invocation) UnmarshalJSON(data []byte) error {
 
 // Outcome is what a run produced.
 type Outcome struct {
-	Status     int            `json:"status"` // exit status, -1 if killed by a signal
-	Signal     string         `json:"signal,omitempty"`
-	Stdout     string         `json:"stdout"`
-	Stderr     string         `json:"stderr"`
-	Crash      string         `json:"crash,omitempty"` // crash signature found on stderr
-	StepsOut   bool           `json:"step_budget_exceeded,omitempty"`
-	CPUOut     bool           `json:"cpu_limit_exceeded,omitempty"`
+	Status   int    `json:"status"` // exit status, -1 if killed by a signal
+	Signal   string `json:"signal,omitempty"`
+	Stdout   string `json:"stdout"`
+	Stderr   string `json:"stderr"`
+	Crash    string `json:"crash,omitempty"` // crash signature found on stderr
+	StepsOut bool   `json:"step_budget_exceeded,omitempty"`
+	CPUOut   bool   `json:"cpu_limit_exceeded,omitempty"`
 	// Blocked: every thread of the process group slept and no CPU time was
 	// consumed for 10 s while nothing was left to wait for (stdin delivered
 	// and closed, stdout/stderr drained): the simulator's "no runnable task
 	// and no pending event" — a deadlock, e.g. a write into a full pipe that
 	// nobody reads. The group is killed.
-	Blocked bool `json:"blocked_forever,omitempty"`
+	Blocked    bool           `json:"blocked_forever,omitempty"`
 	Steps      int64          `json:"steps,omitempty"`
 	Sig        string         `json:"schedule_sig,omitempty"`
 	Opened     []string       `json:"opened,omitempty"`    // resolved paths of successful opens (Trace)
